@@ -63,8 +63,8 @@ def run(F, rep):
     # ---------------------------------------------------------------- N: non-vacuity
     rep.rule('C16.N1', 'a recogniser whose verdict is std::all_of over a string tests that string non-empty after its last mutation (all_of over an empty range is true)')
     n = exc.nonvacuity_rule(F, rep, 'C16.N1')
-    if n < 2:
-        raise AnalysisBroken('C16.N1: %d all_of recognisers found, 2 confirmed' % n)
+    if n < 1:
+        raise AnalysisBroken('C16.N1: %d all_of recognisers found (2 on the pinned tree; a recogniser rewritten without all_of has no vacuous-truth case and needs no such test)' % n)
 
     # ---------------------------------------------------------------- G: grammar terminals
     rep.rule('C16.G1', 'grammar terminals read from the recognisers equal the CellML grammar: real sign {-}, integer signs {-,+}, digits 0-9, at most one ".", at most one e/E, exponent part is a CellML integer')
@@ -74,6 +74,10 @@ def run(F, rep):
     digit = F.fn1('libcellml::isEuropeanNumericCharacter')
     real = F.fn1('libcellml::isCellMLReal')
     expo = F.fn1('libcellml::isCellMLExponent')
+    # the terminals are read off one algorithm (strip sign, strip point, all digits): another algorithm is not interpreted, and nothing is reported about it
+    verd = list(exc.string_verdicts(basic))
+    if not verd:
+        raise AnalysisBroken('isCellMLBasicReal no longer ends in an all-digits verdict (std::all_of or the equivalent loop)')
     s = chars_compared_with_first(basic, 'candidate')
     rep.check(s == {'-'}, 'C16.G1', 'isCellMLBasicReal|sign-set', basic.where(), 'sign characters accepted at the start of a real: %s (grammar: {-})' % sorted(s), 'sign set {-}')
     s = chars_compared_with_first(integer, 'candidate')
@@ -90,9 +94,6 @@ def run(F, rep):
     # decimal point: findOccurrences(candidate, ".") and at most one occurrence where the all-digits verdict is given
     occ = [m for m in basic.walk() if is_call(m, 'findOccurrences')]
     lits = {x.get('v') for m in occ for x in walk(m) if x.get('k') == 'Str'}
-    verd = list(exc.string_verdicts(basic))
-    if not verd:
-        raise AnalysisBroken('isCellMLBasicReal no longer ends in an all-digits verdict (std::all_of or the equivalent loop)')
     rc = ff(basic).rendered_conds_at(verd[0][0]) or set()
     bound = at_most_one(rc)
     rep.check(lits == {'.'} and bool(bound), 'C16.G1', 'isCellMLBasicReal|decimal-point', basic.where(),
